@@ -51,7 +51,7 @@ type params struct {
 func (*prop) Cases(seed int64, tier string) []core.Case {
 	nc, n := 24, 5
 	if tier == "thorough" {
-		nc, n = 64, 12
+		nc, n = 96, 16
 	}
 	var cs []core.Case
 	for i := 0; i < nc; i++ {
